@@ -138,6 +138,61 @@ def hebrew_cache_step(year, v, y0, v0, invalid):
     return got == v and again == v and len(calls) <= 1 and e._is_valid_for_year(year) and e._start_of_year_days == v
 
 
+class IndexedSlot:
+    """Pre-state of the Hebrew year cache in which EVERY slot holds a valid entry for that slot: the entry of some year y0 whose cache
+    index is the index being read (the year is symbolic; which slot the code reads fixes its residue), or the initial invalid entry."""
+
+    def __init__(self, y0, value, invalid):
+        self.y0, self.value, self.invalid = y0, value, invalid
+        self.reads = []
+
+    def __getitem__(self, idx):
+        self.reads.append(idx)
+        if self.invalid:
+            return _YearStartCacheEntry._YearStartCacheEntry__invalid()
+        assume(_YearStartCacheEntry._get_cache_index(self.y0) == idx)      # a slot only ever holds entries of years with its index
+        return _YearStartCacheEntry(self.y0, self.value)
+
+    def __setitem__(self, idx, e):
+        pass
+
+
+@lemma({"year": int, "E": int, "L": int, "y0": int, "E0": int, "b0": int, "invalid": bool}, budget=120, per_path=40,
+       bounds="_HebrewScripturalCalculator.__compute_cache_entry, from an arbitrary VALID cache state (the slot it peeks into holds the initial "
+              "invalid entry or the correct entry of ANY year with that slot's index), the elapsed-days function abstract and consistent with "
+              "the cached entry (E for the year, E + L for the next; 300 <= L <= 400): the entry computed is (E << 2) | long-Heshvan | "
+              "short-Kislev bits of L, whatever the cache holds - the shortcut through the cache cannot change the answer")
+def hebrew_entry_any_slot(year, E, L, y0, E0, b0, invalid):
+    from pyoda_time.calendars._hebrew_scriptural_calculator import _HebrewScripturalCalculator as HS
+    assume(1 <= year <= 9998)
+    assume(1 <= y0 <= 9999)
+    assume(0 <= E < 2 ** 22)
+    assume(0 <= E0 < 2 ** 22)
+    assume(300 <= L <= 400)
+    assume(0 <= b0 <= 3)
+    # the cached entry is CORRECT for its own year (that is what "valid state" means): where its year is one the abstract function knows, it agrees
+    if y0 == year + 1:
+        assume(E0 == E + L)
+    if y0 == year:
+        assume(E0 == E)
+
+    def elapsed(cls, y):
+        if y == year:
+            return E
+        if y == year + 1:
+            return E + L
+        raise AssertionError("abstract elapsed-days function asked for an unexpected year")
+    slot = IndexedSlot(y0, E0 * 4 + b0, invalid)
+    saved = (HS._HebrewScripturalCalculator__elapsed_days_no_cache, HS._HebrewScripturalCalculator__YEAR_CACHE)
+    HS._HebrewScripturalCalculator__elapsed_days_no_cache = classmethod(elapsed)
+    HS._HebrewScripturalCalculator__YEAR_CACHE = slot
+    try:
+        entry = HS._HebrewScripturalCalculator__compute_cache_entry(year)
+    finally:
+        HS._HebrewScripturalCalculator__elapsed_days_no_cache, HS._HebrewScripturalCalculator__YEAR_CACHE = saved
+    return entry == E * 4 + (1 if L % 10 == 5 else 0) + (2 if L % 10 == 3 else 0)
+
+
 # ------------------------------------------------------------------------------------------------ zone-interval cache
 def _zonecache(k_index):
     def h(d1, n1, o0, o1, ad, an, bd, bn):
